@@ -444,6 +444,39 @@ def c07e(F, R):
 
 
 # ============================================================================ C15
+def _include_site(f):
+    """where parse_from_file learns that a node is an include directive: -> (binding of the path, region that handles the include,
+    'if-let' | 'let-else', the site node) or None.  Accepted: `if let Some(p) = <..get_include_path()..> { .. }` and
+    `let Some(p) = <expr or local derived from get_include_path()> else { .. };` followed by the handling"""
+    body = f["hir"]["value"]
+    lets = {s_["pat"]["name"]: s_ for s_ in walk(body, pats=False) if s_.get("k") == "Let" and s_["pat"].get("k") == "PBinding" and s_.get("init") is not None}
+
+    def derives(e, depth=0):
+        if mentions_call(e, "get_include_path"):
+            return True
+        if depth < 3:
+            for x in walk(e, pats=False):
+                if x.get("k") == "Path" and x.get("res_kind") == "Local" and x.get("res") in lets and derives(lets[x["res"]]["init"], depth + 1):
+                    return True
+        return False
+    for n in walk(body, pats=False):
+        if n.get("k") == "If" and peel_cond(n["cond"]).get("k") == "LetExpr" and derives(peel_cond(n["cond"])["init"]):
+            binds = [b["name"] for b in walk(peel_cond(n["cond"])["pat"]) if b.get("k") == "PBinding"]
+            if len(binds) == 1:
+                return binds[0], n["then"], "if-let", n
+    pm = parent_map(body)
+    for st in walk(body, pats=False):
+        if st.get("k") == "Let" and st.get("els") is not None and st.get("init") is not None and derives(st["init"]) and any(short(v or "") == "Some" for k_, v in pat_variants(st["pat"]) if k_ == "path"):
+            binds = [b["name"] for b in walk(st["pat"]) if b.get("k") == "PBinding"]
+            blk = pm.get(id(st))
+            if len(binds) == 1 and blk is not None and blk.get("k") == "Block":
+                idx = next(i for i, x in enumerate(blk["stmts"]) if x is st)
+                region = {"k": "Block", "stmts": blk["stmts"][idx + 1:], "expr": blk.get("expr")}
+                return binds[0], region, "let-else", st
+    return None
+
+
+
 @rule("C15", "C15.a.lexer-stack-pairing", floor=4)
 def c15a(F, R):
     """the include stack is pushed only for the base file and a successfully imported include, popped only at end of file, and an include directive is never also kept as a node"""
@@ -494,15 +527,20 @@ def c15a(F, R):
         R.bad("pop|missing", "the include stack is never popped", f["sp"])
     # include directive is not also a node: `continue` ends the include block, nodes.push(x) follows it
     okc = False
-    for n in walk(f["hir"]["value"], pats=False):
-        if n.get("k") == "If" and peel_cond(n["cond"]).get("k") == "LetExpr" and mentions_call(peel_cond(n["cond"])["init"], "get_include_path"):
-            then = n["then"]
-            last = (then.get("stmts") or [None])[-1]
-            e = (last or {}).get("e") or then.get("expr") or {}
-            while e.get("k") in ("DropTemps", "Use"):
-                e = e["e"]
-            if e.get("k") == "Continue":
-                okc = True
+    site_ = _include_site(f)
+    if site_ is not None and site_[2] == "if-let":
+        then = site_[1]
+        last = (then.get("stmts") or [None])[-1]
+        e = (last or {}).get("e") or then.get("expr") or {}
+        while e.get("k") in ("DropTemps", "Use"):
+            e = e["e"]
+        if e.get("k") == "Continue":
+            okc = True
+    elif site_ is not None:
+        # `let Some(path) = .. else { nodes.push(x); continue }`: what follows handles the include and must not push the directive
+        region = site_[1]
+        okc = not any(m.get("k") == "MethodCall" and m["name"] == "push" and "nodes" == ekey(m["recv"]).lstrip("&*") for m in walk(region, pats=False)) \
+            and any(y.get("k") in ("Continue", "Ret", "Break") for y in walk(site_[3]["els"], pats=False))
     if okc:
         R.ok("include-not-a-node", detail="the include branch ends in `continue` before nodes.push")
     else:
@@ -788,17 +826,12 @@ def c15c(F, R):
 def c15d(F, R):
     """an include is imported with the directive's own path text and the id of the file the directive's token lives in, and the lexer pushed for it carries the id/text that same import returned"""
     f = fn_by_suffix(F, "RVParser::<T>::parse_from_file")
-    site = None
-    for n in walk(f["hir"]["value"], pats=False):
-        if n.get("k") == "If" and peel_cond(n["cond"]).get("k") == "LetExpr" and mentions_call(peel_cond(n["cond"])["init"], "get_include_path"):
-            site = n
-    if site is None:
-        raise Anchor("`if let Some(..) = x.get_include_path()` not found in parse_from_file")
-    le = peel_cond(site["cond"])
-    binds = [b["name"] for b in walk(le["pat"]) if b.get("k") == "PBinding"]
-    if len(binds) != 1:
-        raise Anchor(f"include path pattern binds {binds}")
-    pv = binds[0]
+    site_ = _include_site(f)
+    if site_ is None:
+        raise Anchor("no `Some(path)` binding of `get_include_path()` (if-let or let-else) found in parse_from_file")
+    pv, region_, _form, site = site_
+    site = dict(site)
+    site["then"] = region_
     calls = [c for c in walk(site["then"], pats=False) if c.get("k") == "MethodCall" and c["name"] == "import_file"]
     if len(calls) != 1:
         R.bad("import-call", f"{len(calls)} import_file calls in the include branch", loc(site))
